@@ -40,7 +40,10 @@ class Diagonalization(Function):
         if ctx.batch_shape is None:
             q_mat = q_mat.unsqueeze(-3)
             t_mat = t_mat.unsqueeze(-3)
-        if t_mat.ndimension() == 3:  # If we only used one probe vector
+        # If we only used one probe vector, lanczos_tridiag returns no probe dimension: add one
+        num_batch_dims = 1 if ctx.batch_shape is None else len(ctx.batch_shape)
+        added_probe_dim = t_mat.ndimension() == num_batch_dims + 2
+        if added_probe_dim:
             q_mat = q_mat.unsqueeze(0)
             t_mat = t_mat.unsqueeze(0)
 
@@ -57,8 +60,9 @@ class Diagonalization(Function):
 
         if ctx.batch_shape is None:
             q_mat = q_mat.squeeze(1)
-        q_mat = q_mat.squeeze(0)
-        eigenvalues = eigenvalues.squeeze(0)
+        if added_probe_dim:  # (only the dimension added above: a batch or matrix dimension of size 1 stays)
+            q_mat = q_mat.squeeze(0)
+            eigenvalues = eigenvalues.squeeze(0)
 
         to_save = list(matrix_args) + [q_mat, eigenvalues]
         ctx.save_for_backward(*to_save)
